@@ -295,7 +295,7 @@ def mst(X):
 
     edges = np.zeros((0, 2)).astype(np.intp)
     # upper bound on maxdist**2
-    maxdist = 4 * np.sum((X - X[0]) ** 2, 1).max()
+    maxdist = 4 * np.sum((X - X[0]) ** 2, 1).max() + 1
     nbcc = n
     while nbcc > 1:
         mindist = maxdist * np.ones(nbcc)
